@@ -87,3 +87,25 @@ Definition as_member_out (o : op) (r : out) : out :=
   | Seek _ _, OInt _ => ONone
   | _, _ => r
   end.
+
+(** * The property's judgement of a whole interleaved run
+
+    One reference file per member; [None] once a call outside the property's
+    alphabet was made on that member (its later results are not judged).
+    [steps] are the observed (result, tell() after the call) pairs. *)
+Fixpoint steps_ok (files : list (option bio)) (ops : list (nat * op)) (steps : list (out * Z)) : bool :=
+  match ops, steps with
+  | [], [] => true
+  | (i, o) :: ops', (r, t) :: steps' =>
+      match nth_error files i with
+      | None => false
+      | Some None => steps_ok files ops' steps'
+      | Some (Some b) =>
+          if op_in_dom b o then
+            let (b', sr) := bio_op b o in
+            out_eqb (as_member_out o sr) r && (b_pos b' =? t)
+            && steps_ok (list_set files i (Some b')) ops' steps'
+          else steps_ok (list_set files i None) ops' steps'
+      end
+  | _, _ => false
+  end.
